@@ -45,6 +45,9 @@ SUPPORTED = {n: (('generalized',) if n == 'swimmer' else NATIVE) for n in NAMES}
 # so EpisodeWrapper's scan carry changes dtype): run in brax's native float32
 F32_ONLY = {'inverted_double_pendulum'}
 D6_KEY = 'fluid.force:clip-a_min'
+# D3 (DESIGN.md section 6, property C06): positional/collisions.resolve_position returns early, without
+# renormalising x.rot, for systems that have no contact pair
+D3_KEY = 'positional.resolve_position:no-contact-skips-normalise'
 
 METRICS = {
     'ant': ['reward_forward', 'reward_survive', 'reward_ctrl', 'reward_contact', 'x_position', 'y_position',
@@ -439,6 +442,9 @@ def run_pair(task):
 
   w = training.wrap(Tap(env), episode_length=task['ep_len'], action_repeat=1)
   P = env_cfg(env, name, backend)
+  from mujoco import mjx
+  no_contacts = int(mjx.make_data(env.sys).ncon) == 0
+  res['stats']['no_contacts'] = no_contacts
   ctoks = cfg_tokens(name, P)
   B, T = task['batch'], task['steps']
   na = int(env.action_size)
@@ -476,7 +482,7 @@ def run_pair(task):
   res['wall']['reset_jit'] = round(time.time() - t0, 1)
 
   lines, expect = [], []      # driver lines and what the implementation returned
-  hist = dict(done=0, truncation=0, autoreset=0, clip_active=0, unhealthy_rows=0, steps=0)
+  hist = dict(done=0, truncation=0, autoreset=0, clip_active=0, steps=0)
 
   def check_common(tag, t, obs, reward, done, ps, where):
     """shape / finiteness / unit quaternions of one observation of the trace"""
@@ -494,8 +500,11 @@ def run_pair(task):
       res['quat_dev'] = max(res['quat_dev'], dev)
       if dev > qtol:
         b = int(np.argmax(np.max(np.abs(np.linalg.norm(ps[3].astype(np.float64), axis=-1) - 1), axis=-1)))
-        fail('quat-not-unit', f'{tag}: | |x.rot| - 1 | = {dev:.3e} > {qtol:g} at step {t}, row {b} ({kinds[b]})',
-             step=t, row=b, deviation=dev)
+        d3 = backend == 'positional' and no_contacts
+        fail(D3_KEY if d3 else 'quat-not-unit',
+             f'{tag}: | |x.rot| - 1 | = {dev:.3e} > {qtol:g} at step {t}, row {b} ({kinds[b]})'
+             + (' [system without contact pairs on the positional backend: resolve_position returns before '
+                'renormalising the quaternions]' if d3 else ''), step=t, row=b, deviation=dev)
 
   def rollout(record):
     """returns the list of per-step numpy records (second call: for the determinism comparison)"""
@@ -516,7 +525,7 @@ def run_pair(task):
       if name in HUMANOIDS:
         # reset observes to_tau of the ZERO action (not rescaled)
         qf = np.asarray(jtau(jp.zeros((B, na), dtype=ft), jp.asarray(r0['ps'][0]), jp.asarray(r0['ps'][1])))
-      for b in range(B):
+      for b in range(B if task.get('contract', True) else 0):
         lines.append(' '.join(['reset', name] + ctoks + state_tokens(_row(r0['ps'], b))
                               + (vec(qf[b]) if qf is not None else ['0'])))
         expect.append(dict(kind='reset', t=0, b=b, obs=r0['obs'][b], reward=0.0, done=0.0,
@@ -568,7 +577,7 @@ def run_pair(task):
           r = dict(s0=_row(prev_ps, b), s=_row(r_ps, b), act=actions[t, b].astype(np.float64), obs=rec['robs'][b],
                    reward=rec['rreward'][b], done=rec['rdone'][b],
                    met={k: rec['met'][k][b] for k in METRICS[name]}, qfrc=None if qf is None else qf[b])
-          if all(np.all(np.isfinite(v)) for v in r['s']) and np.all(np.isfinite(r['obs'])):
+          if task.get('contract', True) and all(np.all(np.isfinite(v)) for v in r['s']) and np.all(np.isfinite(r['obs'])):
             for key, msg in spec_step(name, P, r, tol):
               fail(key, f'step {t + 1}, row {b} ({kinds[b]}): {msg}', step=t, row=b,
                    q=r['s'][0].tolist(), qd=r['s'][1].tolist(), torso_pos=r['s'][2][0].tolist() if nb else None,
@@ -707,6 +716,11 @@ def pick_tasks(ctx, offset=0, only_envs=None):
       heavy = n in HUMANOIDS or (n in ('ant', 'hopper', 'walker2d') and b != 'spring')
       steps = 200 if heavy else int(rng.choice([400, 600, 1000]))
       tasks.append(make_task(n, b, ctx.seed + offset, steps, 8, 1000 if steps >= 1000 else 150, 5))
+    # native dtype leg: brax runs in float32 unless told otherwise; shapes, done, finiteness, unit
+    # quaternions and determinism of the same pairs in float32 (contract and model are tied in float64)
+    for n, b in pairs:
+      if n not in F32_ONLY:
+        tasks.append(dict(make_task(n, b, ctx.seed + offset + 1, 200, 8, 150, 10 ** 9), x64=False, contract=False))
     # the registry refuses the backends an environment does not support
     tasks += [dict(make_task(n, b, 0, 0, 1, 1, 1), expect_unsupported=True)
               for n in NAMES for b in NATIVE if b not in SUPPORTED[n]]
@@ -734,7 +748,7 @@ def _collect(ctx, tasks, procs):
   for r in results:
     dis += r['disagreements']; fails += r['spec_failures']; samples += r['samples']
     ev += r['evaluations']; st += r['states']
-    per_pair[f'{r["name"]}/{r["backend"]}'] = dict(
+    per_pair[f'{r["name"]}/{r["backend"]}' + ('' if r['x64'] or r['name'] in F32_ONLY else '/float32')] = dict(
         dtype='float64' if r['x64'] else 'float32', max_quat_deviation=r['quat_dev'], max_model_error=r['model_err'],
         wall=r['wall'], **{k: v for k, v in r['stats'].items() if k != 'kinds'})
   return dict(dis=dis, fails=fails, samples=samples, per_pair=per_pair, evaluations=ev, states=st,
